@@ -73,6 +73,13 @@ def check(case):
     scalars = [float(guarded(T, float(v))) for v in levels]
     arr = np.asarray(guarded(T, np.array(levels, dtype=float)), dtype=float)
     lst = np.asarray(guarded(T, list(levels)), dtype=float)
+    # a reversed view (negative stride), as in np.linspace(a, b, n)[::-1]
+    rev = np.asarray(guarded(T, np.array(levels, dtype=float)[::-1]),
+                     dtype=float)
+    if rev.shape != (len(levels),) or not (rev[::-1] == arr).all():
+        raise Violation('array-scalar-mismatch',
+                        'reversed view: {!r} vs {!r}'.format(
+                            rev[::-1].tolist()[:4], arr.tolist()[:4]))
     if arr.shape != (len(levels),) or lst.shape != (len(levels),):
         raise Violation('array-shape', repr(arr.shape))
     for s, a, l in zip(scalars, arr, lst):
